@@ -220,6 +220,14 @@ def enum_scripts(tier):
     # multi-host frames
     hostsets = [["other", "main"], ["main", "other"], ["other", "dead"], ["dead", "other", "main"], ["blackhole", "main"], ["other", "other", "main"],
                 ["dead", "dead"], ["other", "blackhole"]]
+    # discovery updates that reshape the address list (drop / add / rotate / move) around attempts that reach another accessory: the bookkeeping of
+    # addresses already found wrong must keep up with the list (a generated case of this shape was the only one to catch `seeded/C10-1`)
+    zc_kinds = ["same", "rotate", "add", "port", "drop-first", "move-main"]
+    for hs in (["blackhole", "other", "main"], ["dead", "other", "main"], ["other", "main"], ["other", "dead", "main"]):
+        for x in zc_kinds:
+            for y in zc_kinds:
+                for script in (["hang-m1", "refused", "close-after-m1", "error-m2:6", "error-m4:2", "ok", "error-m2:6"], []):
+                    yield {"hosts": hs, "script": script, "k": 1, "ops": [["open"], ["zc", x], ["dropold", "fin"], ["adv", 12], ["zc", y], ["adv", 60]]}
     # the third address of the pool is IPv6: stored in three non-canonical spellings, belonging to another accessory / dead / the paired one
     for sp in (1, 2, 3):
         for hs in (["main", "dead", "other"], ["dead", "main", "other"], ["dead", "dead", "main"], ["main", "main", "other"]):
